@@ -23,6 +23,9 @@ def run(ctx):
             ("tfc", "mem", 500 if quick else 8000, "failures"),
             ("tfc", "db:4", 150 if quick else 2000, "failures"),
             ("fw", "mem", 400 if quick else 6000, "failures"),
+            # the same with projections over the firewalls (and projections over those: graded)
+            ("ptfc", "mem", 400 if quick else 6000, "failures"),
+            ("ptfc-chain", "mem", 300 if quick else 5000, "graded_failures"),
             # the firewall fragment model Engine/Fw.v (the one FwSound.v is about) against the same kind of histories
             ("fw", "mem", 300 if quick else 4000, "fw_failures"),
             ("tfc", "mem", 300 if quick else 4000, "fw_failures")]
@@ -49,7 +52,8 @@ def run(ctx):
     for v in st["c01"] + st["hangs"]:
         real_fail.append({"mode": "all", "cfg": "mem, 8 worker threads", **v})
     # regression corpus: minimised histories of defects repaired in /repo (known_findings.txt: fixed)
-    for w in ("c01_tfc_aba.txt", "c01_tfc_stale_root_walk.txt", "c01_tfc_stale_root_exec.txt"):
+    for w in ("c01_tfc_aba.txt", "c01_tfc_stale_root_walk.txt", "c01_tfc_stale_root_exec.txt", "c01_lost_backward_projection.txt",
+              "c01_projection_switches_firewall.txt", "c01_projection_chain_switches_firewall.txt"):
         status, txt = ec.replay_witness(os.path.join(vlib.VERIF, "witness", w), cyclic=False)
         if status != "ok":
             real_fail.append({"mode": "witness " + w, "violation": status, "scenario": txt[-1500:]})
